@@ -72,6 +72,14 @@ theorem key_range_is_destination_partial (line c textLen destLen : Nat) :
   simp only [keyRange, Prod.mk.injEq, Pos.mk.injEq, true_and]
   omega
 
+/-- **finding D42**: for a link whose source wraps over a line break the rename range is not the destination —
+`see [the wrapped⏎title](n1)`: the link spans 0:4–1:10, its text is 17 characters long, `key_range` answers
+0:24–1:9 while `n1` stands at 1:7–1:9 (`key_range_is_destination_partial` needs the link on one line) -/
+theorem key_range_multiline_counterexample :
+    keyRange (⟨0, 4⟩, ⟨1, 10⟩) 17 = (⟨0, 24⟩, ⟨1, 9⟩)
+    ∧ keyRange (⟨0, 4⟩, ⟨1, 10⟩) 17 ≠ (⟨1, 7⟩, ⟨1, 9⟩) := by
+  decide
+
 /-- **finding D14, CRLF**: every `\r\n` before the point shifts the reported column by one:
 in `a\r\nbc`, byte 4 (`c`) is LSP (1,1) but reported (1,2)… -/
 theorem crlf_counterexample :
